@@ -29,7 +29,7 @@ RULE = ("Hypothesis-generated cases (graphs x switches x threshold x channel in 
         "or >=3 target nodes (an order dependence would be visible); distinct by SHA-1 of the case.")
 ASSUMPTIONS = ["4 (quick) / 8 (thorough) hash seeds per case: a dependence that shows only for rarer seeds can be missed",
                "rdflib.compare.to_canonical_graph for SHACL isomorphism"]
-BUDGET = {"quick": {"examples": 0, "wall": 240, "cases": 2560}, "thorough": {"examples": 0, "wall": 5400, "cases": 20000}}
+BUDGET = {"quick": {"examples": 0, "wall": 240, "cases": 2560}, "thorough": {"examples": 0, "wall": 1200, "cases": 8000}}
 FLOORS = {"nontrivial": 0.3, "chan:endpoint": 0.05, "chan:sm": 0.05, "byte-compared": 0.3}
 RDFLIB_ORDERED = ("turtle", "rdflib", "endpoint-cached")
 NS4 = {"http://a.org/": "", "http://b.org/": "weso-s", "http://c.org/": "shapes", "http://d.org/": "w-shapes"}
